@@ -1,6 +1,6 @@
 """Property -> obligations. Bounds, assumptions and what lies outside are stated here and
 copied into the evidence file by the run that used them."""
-from runner import K
+from runner import K, SmtTopicName
 
 Q = ("quick", "thorough")
 T = ("thorough",)
@@ -107,10 +107,120 @@ PROPS["C08"] = {
 }
 
 
+def _p(h, tiers, bounds, **kw):
+    return K("hx-protocol", h, tiers, bounds=bounds, **kw)
+
+
+PROPS["C05"] = {
+    "level": "model_checking", "claimed": False, "claim": "wip", "note": "wip",
+    "obligations": [
+        _p("c05::c05_rt_batch_l0_e0", Q, "BatchMessage, payload 0 bytes, 0 trailing bytes"),
+        _p("c05::c05_rt_batch_l3_e2", Q, "BatchMessage, payload 3 symbolic bytes, 2 symbolic trailing bytes"),
+        _p("c05::c05_rt_batch_l1_e1", T, "BatchMessage, 1 byte, 1 trailing"),
+        _p("c05::c05_rt_batch_l3_e0", T, "BatchMessage, 3 bytes"),
+        _p("c05::c05_rt_batch_l8_e0", T, "BatchMessage, 8 bytes"),
+        _p("c05::c05_rt_message_h0_l0", Q, "Message, headers None, empty payload"),
+        _p("c05::c05_rt_message_h0_l3", Q, "Message, headers None, 3 symbolic bytes, 1 trailing byte"),
+        _p("c05::c05_rt_message_h1_l1", T, "Message, headers Some({}), 1 byte", timeout=3000, mem_gb=14),
+        _p("c05::c05_rt_message_h2_l2", T, "Message, headers {cid:1}, 2 bytes", timeout=3000, mem_gb=14),
+        _p("c05::c05_rt_message_h3_l1", T, "Message, headers {cid:7, req_id:5}, 1 byte", timeout=3000, mem_gb=14),
+        _p("c05::c05_rt_error_l0", Q, "Error, symbolic code, empty message"),
+        _p("c05::c05_rt_error_l3", T, "Error, symbolic code, 3 symbolic bytes, 2 trailing"),
+        _p("c05::c05_rt_ok", Q, "Ok frame, 3 symbolic trailing bytes"),
+        _p("c05::c05_rt_register_requestor", Q, "RegisterRequestor, concrete topic /abc/d-e_f", timeout=1500),
+        _p("c05::c05_rt_register_replier", T, "RegisterReplier, concrete topic, 2 trailing bytes", timeout=3000, mem_gb=14),
+        _p("c05::c05_rt_register_publisher_ops0", T, "RegisterPublisher, symbolic retention, no operations", timeout=3000, mem_gb=14),
+        _p("c05::c05_rt_register_publisher_ops2", T, "RegisterPublisher, symbolic retention, 2 operations", timeout=3000, mem_gb=14),
+        _p("c05::c05_rt_register_subscriber_ops1", T, "RegisterSubscriber, symbolic retention, 1 operation", timeout=3000, mem_gb=14),
+        _p("c05::c05_partial_c0", Q, "decode on an empty buffer"),
+        _p("c05::c05_partial_c5", Q, "decode on 5 arbitrary bytes"),
+        _p("c05::c05_partial_c8", Q, "decode on 8 arbitrary bytes"),
+        _p("c05::c05_partial_c9", Q, "decode on 9 arbitrary bytes: every u64 length prefix (incl. > 1 MiB, == 1 MiB), every type byte <= 8"),
+        _p("c05::c05_limit_encode_batch_over", Q, "encode BatchMessage of every length in (1 MiB, 2 MiB]"),
+        _p("c05::c05_limit_encode_message_over", T, "encode Message whose serialized payload is in (1 MiB, 2 MiB + 9]", timeout=1800),
+        _p("c05::c05_limit_length_is_payload_len", Q, "get_length for every payload length 0..2 MiB"),
+        _p("c05::c05_batch_enc_n0", Q, "encode_message_batch([])"),
+        _p("c05::c05_batch_enc_n1", Q, "encode_message_batch([2 bytes])"),
+        _p("c05::c05_batch_enc_n3", T, "encode_message_batch([2,0,1 bytes])", mem_gb=14),
+        _p("c05::c05_batch_dec_n0", Q, "decode_message_batch of the image of []"),
+        _p("c05::c05_batch_dec_n1", Q, "decode_message_batch of the image of [2 bytes]"),
+        _p("c05::c05_batch_dec_n2", Q, "decode_message_batch of the image of [1,1 bytes]"),
+        _p("c05::c05_batch_dec_n3", T, "decode_message_batch of the image of [2,0,1 bytes]"),
+    ],
+}
+
+
 def _unbatch(tiers, b, **kw):
     return K("hx-protocol", f"c06::c06_unbatch_b{b}", tiers, bounds=f"decode_message_batch on {b} arbitrary bytes", **kw)
 
+
 PROPS["C06"] = {
     "level": "model_checking", "claimed": False, "claim": "wip", "note": "wip",
-    "obligations": [_unbatch(Q, b) for b in (0, 1, 7, 8, 9, 15, 16, 17)] + [_unbatch(T, 25, timeout=1800)],
+    "obligations": [_unbatch(Q, b) for b in (0, 1, 7, 8, 9, 16, 17)] + [_unbatch(T, 15), _unbatch(T, 25, timeout=1800)] + [
+        _p("c06::c06_frame_t0_b0", T, "complete RegisterPublisher frame, 0 payload bytes", timeout=1800),
+        _p("c06::c06_frame_t1_b1", T, "complete RegisterSubscriber frame, 1 arbitrary payload byte", timeout=1800),
+        _p("c06::c06_frame_t2_b9", T, "complete RegisterReplier frame, 9 arbitrary payload bytes", timeout=3000, mem_gb=14),
+        _p("c06::c06_frame_t3_b17", T, "complete RegisterRequestor frame, 17 arbitrary payload bytes", timeout=3000, mem_gb=14),
+        _p("c06::c06_frame_t4_b0", Q, "complete Message frame, 0 payload bytes", timeout=1800),
+        _p("c06::c06_frame_t4_b1", Q, "complete Message frame, 1 arbitrary payload byte", timeout=1800),
+        _p("c06::c06_frame_t4_b9", T, "complete Message frame, 9 arbitrary payload bytes (header-map count <= 1)", timeout=3000, mem_gb=14),
+        _p("c06::c06_frame_t4_b17", T, "complete Message frame, 17 arbitrary payload bytes (header-map count <= 1)", timeout=3000, mem_gb=14),
+        _p("c06::c06_frame_t5_b4", Q, "complete BatchMessage frame, 4 arbitrary bytes"),
+        _p("c06::c06_frame_t6_b4", Q, "complete Error frame, 4 arbitrary bytes", timeout=1800),
+        _p("c06::c06_frame_t6_b12", T, "complete Error frame, 12 arbitrary bytes", timeout=3000, mem_gb=14),
+        _p("c06::c06_frame_t6_b13", T, "complete Error frame, 13 arbitrary bytes", timeout=3000, mem_gb=14),
+        _p("c06::c06_frame_t7_b0", Q, "complete Ok frame"),
+        _p("c06::c06_frame_t7_b1", T, "Ok frame with 1 stray payload byte"),
+        _p("c06::c06_frame_t8_b1", Q, "unknown frame type 8"),
+        _p("c06::c06_string_b0", Q, "StringCodec::decode, 0 bytes"),
+        _p("c06::c06_string_b3", Q, "StringCodec::decode, 3 arbitrary bytes"),
+        _p("c06::c06_string_b6", T, "StringCodec::decode, 6 arbitrary bytes"),
+        _p("c06::c06_bytes_b4", Q, "BytesCodec::decode, 4 arbitrary bytes"),
+        _p("c06::c06_bincode_b0", Q, "BincodeCodec<{String,u64}>::decode, 0 bytes"),
+        _p("c06::c06_bincode_b7", Q, "BincodeCodec::decode, 7 arbitrary bytes"),
+        _p("c06::c06_bincode_hugelen_b8", Q, "BincodeCodec::decode, 8 bytes announcing a string of >= 2^63 bytes"),
+        _p("c06::c06_bincode_b8", T, "BincodeCodec::decode, 8 arbitrary bytes (every string length prefix)", timeout=3000, mem_gb=16),
+        _p("c06::c06_bincode_b12", T, "BincodeCodec::decode, 12 arbitrary bytes", timeout=3000, mem_gb=16),
+        _p("c06::c06_bincode_b17", T, "BincodeCodec::decode, 17 arbitrary bytes", timeout=3000, mem_gb=16),
+    ],
+}
+
+PROPS["C14"] = {
+    "level": "model_checking", "claimed": False, "claim": "wip", "note": "wip",
+    "obligations": [
+        _p("c14::c14_string_rt_c0", Q, "StringCodec round trip, empty string"),
+        _p("c14::c14_string_rt_c1", Q, "StringCodec round trip, every string of 2 UTF-8 bytes"),
+        _p("c14::c14_string_rt_c2", T, "StringCodec round trip, every string of 4 UTF-8 bytes", timeout=1800),
+        _p("c14::c14_string_any_b1", Q, "StringCodec::decode on every 1-byte input"),
+        _p("c14::c14_string_any_b2", Q, "StringCodec::decode on every 2-byte input"),
+        _p("c14::c14_string_any_b3", T, "StringCodec::decode on every 3-byte input", timeout=1800),
+        _p("c14::c14_string_any_b4", T, "StringCodec::decode on every 4-byte input", timeout=3000, mem_gb=14),
+        _p("c14::c14_bytes_rt_b0", Q, "BytesCodec round trip, empty"),
+        _p("c14::c14_bytes_rt_b4", Q, "BytesCodec round trip, every 4-byte value"),
+        _p("c14::c14_bincode_rt_c0", Q, "BincodeCodec<{String,u64}> round trip, empty string, every u64"),
+        _p("c14::c14_bincode_rt_c3", T, "BincodeCodec round trip, every 3-char ASCII string, every u64", timeout=1800, mem_gb=14),
+    ],
+}
+
+PUBSUB_T = [
+    K("hx-topic", "pubsub_t::t_pubsub_s1_p1_t2_polls3", Q, timeout=2400, mem_gb=12, bounds="1 subscriber + 1 publisher (registration order symbolic), <=2 messages, 3 polls, every ready/pending/arrival outcome symbolic"),
+    K("hx-topic", "pubsub_t::t_pubsub_s2_p1_t2_polls4", T, timeout=3400, mem_gb=16, bounds="2 subscribers + 1 publisher, <=2 messages, 4 polls"),
+    K("hx-topic", "pubsub_t::t_pubsub_s2_p2_t3_polls5", T, timeout=3400, mem_gb=20, bounds="2 subscribers + 2 publishers, <=3 messages, 5 polls"),
+]
+PUBSUB_FAULTS_T = [
+    K("hx-topic", "pubsub_t::t_pubsub_faults_s2_p1_t2_polls4", T, timeout=3400, mem_gb=16, bounds="2 subscribers (may fail at any operation) + 1 publisher (may yield Err items), <=2 messages, 4 polls"),
+]
+PUBSUB_SHUTDOWN_T = [
+    K("hx-topic", "pubsub_t::t_pubsub_shutdown_p0", Q, timeout=1800, mem_gb=10, bounds="close before the first poll; 1 subscriber + 1 publisher queued"),
+    K("hx-topic", "pubsub_t::t_pubsub_shutdown_p2", Q, timeout=2400, mem_gb=12, bounds="close after 2 symbolic polls; 1 subscriber + 1 publisher, <=2 messages"),
+    K("hx-topic", "pubsub_t::t_pubsub_shutdown_p3", T, timeout=3400, mem_gb=16, bounds="close after 3 symbolic polls; 2 subscribers + 1 publisher, <=2 messages"),
+]
+PROPS["C09"] = {"level": "model_checking", "claimed": False, "claim": "wip", "note": "wip", "obligations": PUBSUB_T}
+PROPS["C16"] = {"level": "model_checking", "claimed": False, "claim": "wip", "note": "wip", "obligations": PUBSUB_SHUTDOWN_T}
+
+
+PROPS["C07"] = {
+    "level": "model_checking", "engine": "smt-topicname", "claimed": False, "claim": "wip", "note": "wip",
+    "technique": "source-to-SMT-LIB2 encoding of TopicName parsing, decided by z3 (cvc5 cross-check in the thorough tier)",
+    "obligations": [SmtTopicName(("quick",), timeout=900), SmtTopicName(("thorough",), timeout=2400, cross=True, name="smt::topic_name_cross")],
 }
